@@ -19,10 +19,12 @@ pub fn size_of(cx: &mut Ctx, t: &Ty) -> R<Tr> {
   }
 }
 
-fn ptr_meta_term(_cx: &Ctx, pointee: &Ty) -> R<String> {
+fn ptr_meta_term(cx: &Ctx, pointee: &Ty) -> R<String> {
   match pointee {
     Ty::SliceOf(_) | Ty::Str => Ok("true".into()),
-    Ty::Param(n) => Ok(format!("(unsized_{})", n)),
+    Ty::Param(n) => {
+      if cx.generics.iter().any(|g| &g.name == n && g.maybe_unsized) { Ok(format!("unsized_{}", n)) } else { Ok("false".into()) }
+    }
     _ => Ok("false".into()),
   }
 }
@@ -33,6 +35,13 @@ pub fn align_of(cx: &mut Ctx, t: &Ty) -> R<Tr> {
 
 pub fn size_of_val(cx: &mut Ctx, arg: &syn::Expr) -> R<Tr> {
   let a = cx.expr(arg, None)?;
+  if a.ty.is_container() {
+    // size_of_val::<[A]>(&*container): length times element size
+    let elem = a.ty.cont_elem().ok_or("size_of_val of a container without element type")?.clone();
+    let et = ty_term(&elem, &cx.cty_names())?;
+    if !a.pure { return Err("size_of_val of an impure operand".into()); }
+    return Ok(Tr::pure(format!("(clen {} * sz {})", a.code, et), Ty::Usize));
+  }
   let elem = a.ty.slice_elem().ok_or_else(|| format!("size_of_val of {:?}", a.ty))?.clone();
   let et = ty_term(&elem, &cx.cty_names())?;
   let f = match &a.ty {
@@ -46,6 +55,9 @@ pub fn size_of_val(cx: &mut Ctx, arg: &syn::Expr) -> R<Tr> {
 }
 
 pub fn reborrow(cx: &mut Ctx, p: Tr, _expected: Option<&Ty>) -> R<Tr> {
+  if p.ty.is_container() {
+    return Ok(p); // &*container: a view of the container's own contents
+  }
   let pointee = p.ty.pointee().ok_or_else(|| format!("`&*` of a non-pointer {:?}", p.ty))?.clone();
   match &pointee {
     Ty::SliceOf(_) => {
@@ -62,25 +74,129 @@ pub fn reborrow(cx: &mut Ctx, p: Tr, _expected: Option<&Ty>) -> R<Tr> {
   }
 }
 
-pub fn transmute_ptr(_cx: &mut Ctx, _v: Tr, _dst: Ty) -> R<Tr> {
-  Err("transmute! of a pointer".into())
+/// transmute!(p) of a raw pointer (thin or fat) to another pointer type: a copy of the pointer's
+/// words, meaningful only when both pointer types have the same size
+pub fn transmute_ptr(cx: &mut Ctx, v: Tr, dst: Ty) -> R<Tr> {
+  let to = match &dst { Ty::Ref(t) => (**t).clone(), other => return Err(format!("transmute! of a pointer to {:?}", other)) };
+  let (from, is_cont) = match &v.ty {
+    Ty::Ref(t) => ((**t).clone(), false),
+    Ty::RawCont(t) => ((**t).clone(), true),
+    other => return Err(format!("transmute! of {:?} to a pointer", other)),
+  };
+  let sw = format!("(ptr_size {})", ptr_meta_term(cx, &from)?);
+  let dw = format!("(ptr_size {})", ptr_meta_term(cx, &to)?);
+  let ty = if is_cont { Ty::RawCont(Box::new(to)) } else { Ty::Ref(Box::new(to)) };
+  let (code, pure) = cx.seq_pub(vec![v], |n| (format!("(transmute_ptr_m {} {} {})", sw, dw, n[0]), false));
+  Ok(Tr { code, ty, pure })
 }
 
 pub fn index_expr(_cx: &mut Ctx, _ix: &syn::ExprIndex, _borrow: bool) -> R<Tr> {
   Err("index expression".into())
 }
 
-pub fn field_expr(_cx: &mut Ctx, _f: &syn::ExprField) -> R<Tr> {
-  Err("field expression".into())
+pub fn field_expr(cx: &mut Ctx, f: &syn::ExprField) -> R<Tr> {
+  let base = cx.expr(&f.base, None)?;
+  let name = match &f.member { syn::Member::Named(i) => i.to_string(), _ => return Err("tuple field".into()) };
+  if !base.pure { return Err("field of an impure operand".into()); }
+  match (&base.ty, name.as_str()) {
+    (Ty::BoxBytes, "layout") => Ok(Tr::pure(format!("(bb_layout {})", base.code), Ty::Layout)),
+    (Ty::BoxBytes, "ptr") => Ok(Tr::pure(format!("(bb_ptr {})", base.code), Ty::Addr(Box::new(Ty::U8)))),
+    (t, n) => Err(format!("field .{} of {:?}", n, t)),
+  }
 }
 
-pub fn struct_expr(_cx: &mut Ctx, _s: &syn::ExprStruct) -> R<Tr> {
-  Err("struct literal".into())
+pub fn struct_expr(cx: &mut Ctx, s: &syn::ExprStruct) -> R<Tr> {
+  if !s.path.is_ident("BoxBytes") || s.rest.is_some() || s.fields.len() != 2 {
+    return Err(format!("struct literal `{}`", quote::quote!(#s)));
+  }
+  let mut ptr = None;
+  let mut layout = None;
+  for fv in &s.fields {
+    let n = match &fv.member { syn::Member::Named(i) => i.to_string(), _ => return Err("tuple field".into()) };
+    let v = cx.expr(&fv.expr, None)?;
+    match (n.as_str(), &v.ty) {
+      ("ptr", Ty::Addr(_)) => ptr = Some(v),
+      ("layout", Ty::Layout) => layout = Some(v),
+      (n, t) => return Err(format!("BoxBytes field {} : {:?}", n, t)),
+    }
+  }
+  let (p, l) = (ptr.ok_or("BoxBytes without ptr")?, layout.ok_or("BoxBytes without layout")?);
+  let (code, pure) = cx.seq_pub(vec![p, l], |v| (format!("(mkBB {} {})", v[0], v[1]), true));
+  Ok(Tr { code, ty: Ty::BoxBytes, pure })
 }
 
-pub fn std_call(_cx: &mut Ctx, _full: &str, _turbofish: &[Ty], _args: &[&syn::Expr],
+pub fn std_call(cx: &mut Ctx, full: &str, _turbofish: &[Ty], args: &[&syn::Expr],
                 _expected: Option<&Ty>) -> R<Option<Tr>> {
-  Ok(None)
+  match (full, args.len()) {
+    ("Box::into_raw", 1) | ("Rc::into_raw", 1) | ("Arc::into_raw", 1) => {
+      let x = cx.expr(args[0], None)?;
+      let inner = match &x.ty {
+        Ty::Box_(t) | Ty::Rc_(t) | Ty::Arc_(t) => (**t).clone(),
+        other => return Err(format!("into_raw of {:?}", other)),
+      };
+      Ok(Some(Tr { code: x.code, ty: Ty::RawCont(Box::new(inner)), pure: x.pure }))
+    }
+    ("Box::from_raw", 1) | ("Rc::from_raw", 1) | ("Arc::from_raw", 1) => {
+      let x = cx.expr(args[0], None)?;
+      if let (Ty::Addr(t), true) = (&x.ty, full.starts_with("Box")) {
+        // Box::from_raw(address as *mut T): a Box of one T at that address
+        if matches!(**t, Ty::SliceOf(_)) { return Err("Box::from_raw of a bare slice address".into()); }
+        let ty = Ty::Box_(t.clone());
+        let (code, pure) = cx.seq_pub(vec![x], |v| (format!("(cont_of_addr {})", v[0]), true));
+        return Ok(Some(Tr { code, ty, pure }));
+      }
+      let inner = match &x.ty { Ty::RawCont(t) => (**t).clone(), other => return Err(format!("from_raw of {:?}", other)) };
+      let ty = if full.starts_with("Box") { Ty::Box_(Box::new(inner)) } else if full.starts_with("Rc") { Ty::Rc_(Box::new(inner)) } else { Ty::Arc_(Box::new(inner)) };
+      Ok(Some(Tr { code: x.code, ty, pure: x.pure }))
+    }
+    ("Vec::from_raw_parts", 3) => {
+      let p = cx.expr(args[0], None)?;
+      let l = cx.expr(args[1], Some(&Ty::Usize))?;
+      let c = cx.expr(args[2], Some(&Ty::Usize))?;
+      let elem = match &p.ty { Ty::RawCont(t) => (**t).clone(), other => return Err(format!("Vec::from_raw_parts of {:?}", other)) };
+      let (code, pure) = cx.seq_pub(vec![p, l, c], |v| (format!("(cont_set {} {} {})", v[0], v[1], v[2]), true));
+      Ok(Some(Tr { code, ty: Ty::Vec_(Box::new(elem)), pure }))
+    }
+    ("Layout::new", 0) if _turbofish.len() == 1 => {
+      let t = ty_term(&_turbofish[0], &cx.cty_names())?;
+      Ok(Some(Tr::pure(format!("(mkLayout (sz {}) (al {}))", t, t), Ty::Layout)))
+    }
+    ("Layout::for_value", 1) => {
+      // Layout::for_value::<[T]>(&boxed_slice)
+      let mut a = args[0];
+      while let syn::Expr::Reference(r) = a { a = &r.expr; }
+      let x = cx.expr(a, None)?;
+      if !x.pure { return Err("Layout::for_value of an impure operand".into()); }
+      match &x.ty {
+        Ty::Box_(t) => match &**t {
+          Ty::SliceOf(e) => {
+            let et = ty_term(e, &cx.cty_names())?;
+            Ok(Some(Tr::pure(format!("(mkLayout (clen {} * sz {}) (al {}))", x.code, et, et), Ty::Layout)))
+          }
+          other => Err(format!("Layout::for_value of Box<{:?}>", other)),
+        },
+        other => Err(format!("Layout::for_value of {:?}", other)),
+      }
+    }
+    ("NonNull::new_unchecked", 1) => {
+      let x = cx.expr(args[0], None)?;
+      match &x.ty {
+        Ty::RawCont(t) => {
+          let ty = Ty::Addr(t.clone());
+          let (code, pure) = cx.seq_pub(vec![x], |v| (format!("(cptr {})", v[0]), true));
+          Ok(Some(Tr { code, ty, pure }))
+        }
+        Ty::Addr(_) => Ok(Some(x)),
+        other => Err(format!("NonNull::new_unchecked of {:?}", other)),
+      }
+    }
+    ("ManuallyDrop::new", 1) => {
+      let x = cx.expr(args[0], None)?;
+      let ty = Ty::ManuallyDrop(Box::new(x.ty.clone()));
+      Ok(Some(Tr { code: x.code, ty, pure: x.pure }))
+    }
+    _ => Ok(None),
+  }
 }
 
 /// `match x { 0 | 1 => a, _ => b }` on an integer scrutinee.
@@ -148,8 +264,55 @@ pub fn method_call(cx: &mut Ctx, m: &syn::ExprMethodCall, expected: Option<&Ty>)
   }
 }
 
-pub fn alloc_vocab_method(_cx: &mut Ctx, m: &syn::ExprMethodCall, recv: Tr, name: &str,
-                          _args: &[&syn::Expr]) -> R<Tr> {
+pub fn alloc_vocab_method(cx: &mut Ctx, m: &syn::ExprMethodCall, recv: Tr, name: &str,
+                          args: &[&syn::Expr]) -> R<Tr> {
+  if recv.ty.is_container() && args.is_empty() {
+    match name {
+      "len" => { if !recv.pure { return Err("len() of impure operand".into()); } return Ok(Tr::pure(format!("(clen {})", recv.code), Ty::Usize)); }
+      "capacity" => { if !recv.pure { return Err("capacity() of impure operand".into()); } return Ok(Tr::pure(format!("(ccap {})", recv.code), Ty::Usize)); }
+      "as_mut_ptr" | "as_ptr" => {
+        let elem = recv.ty.cont_elem().ok_or("as_ptr of a container without element type")?.clone();
+        return Ok(Tr { code: recv.code, ty: Ty::RawCont(Box::new(elem)), pure: recv.pure });
+      }
+      _ => {}
+    }
+  }
+  if args.is_empty() && recv.pure {
+    match (&recv.ty, name) {
+      (Ty::Layout, "size") => return Ok(Tr::pure(format!("(l_size {})", recv.code), Ty::Usize)),
+      (Ty::Layout, "align") => return Ok(Tr::pure(format!("(l_align {})", recv.code), Ty::Usize)),
+      (Ty::Addr(_), "as_ptr") => return Ok(recv),
+      (Ty::BoxBytes, "into_raw_parts") => {
+        return Ok(Tr::pure(format!("(bb_ptr {}, bb_layout {})", recv.code, recv.code),
+                           Ty::Tuple(vec![Ty::Addr(Box::new(Ty::U8)), Ty::Layout])));
+      }
+      _ => {}
+    }
+  }
+  // try_f(x).map_err(|(e, _v)| e).unwrap()
+  if name == "unwrap" && args.is_empty() {
+    if let Ty::Result(ok, err) = &recv.ty {
+      if **err == Ty::PErr {
+        let v = cx.fresh_pub("x");
+        let code = format!("({} <- {} ;; match {} with Ok t_v => Ret t_v | Err t_e => Panic (W_unwrap (EP t_e)) end)", v, recv.lifted(), v);
+        return Ok(Tr::eff(code, (**ok).clone()));
+      }
+    }
+  }
+  if name == "map_err" && args.len() == 1 {
+    if let (Ty::Result(ok, err), syn::Expr::Closure(c)) = (&recv.ty, args[0]) {
+      // |(e, _v)| e : keep the error, drop the container that came back with it
+      let is_fst = c.inputs.len() == 1 && matches!(&c.inputs[0], syn::Pat::Tuple(t) if t.elems.len() == 2
+        && matches!((&t.elems[0], &*c.body), (syn::Pat::Ident(a), syn::Expr::Path(b)) if b.path.is_ident(&a.ident)));
+      if let (true, Ty::Tuple(parts)) = (is_fst, &**err) {
+        if parts.len() == 2 && parts[0] == Ty::PErr {
+          let v = cx.fresh_pub("x");
+          let code = format!("({} <- {} ;; Ret (match {} with Ok t_v => Ok t_v | Err (t_e, _) => Err t_e end))", v, recv.lifted(), v);
+          return Ok(Tr::eff(code, Ty::Result(ok.clone(), Box::new(Ty::PErr))));
+        }
+      }
+    }
+  }
   Err(format!("unsupported method .{}() on {:?} in `{}`", name, recv.ty, quote::quote!(#m)))
 }
 
@@ -186,7 +349,7 @@ pub fn translate_const_asserts(im: &syn::ItemImpl) -> R<Vec<ItemOut>> {
   let mut generics = vec![];
   for gp in &im.generics.params {
     if let syn::GenericParam::Type(tp) = gp {
-      generics.push(crate::Generic { name: tp.ident.to_string(), is_cty: false });
+      generics.push(crate::Generic { name: tp.ident.to_string(), is_cty: false, maybe_unsized: false });
     }
   }
   static MS: ModuleSpec = ModuleSpec { name: "Must", file: "src/must.rs", skip: &[], imports: &[] };
@@ -222,9 +385,164 @@ pub fn translate_const_asserts(im: &syn::ItemImpl) -> R<Vec<ItemOut>> {
   Ok(out)
 }
 
-pub fn translate_alloc_impls(_ms: &ModuleSpec, _file: &syn::File,
-                             _sigs: &HashMap<(String, String), FnSig>) -> Result<Vec<ItemOut>, String> {
-  Ok(vec![])
+/// The default methods of a trait `Name<Inner: ?Sized>` as functions over the type parameters
+/// `Self` and `Inner`; a parameter that a method's where-clause does not make `Sized` gets a flag
+/// `unsized_<P>` (its pointers may be fat).
+pub fn translate_trait_methods(ms: &ModuleSpec, file: &syn::File, sigs: &HashMap<(String, String), FnSig>,
+                               trait_name: &str) -> Result<Vec<ItemOut>, String> {
+  let mut out = vec![];
+  let tr = file.items.iter().find_map(|it| match it { syn::Item::Trait(t) if t.ident == trait_name => Some(t), _ => None })
+    .ok_or_else(|| format!("trait {} not found", trait_name))?;
+  let mut tparams: Vec<(String, bool)> = vec![("Self".to_string(), true)];   // (name, ?Sized)
+  for gp in &tr.generics.params {
+    if let syn::GenericParam::Type(tp) = gp {
+      let q = tp.bounds.iter().any(|b| matches!(b, syn::TypeParamBound::Trait(tb) if matches!(tb.modifier, syn::TraitBoundModifier::Maybe(_))));
+      tparams.push((tp.ident.to_string(), q));
+    }
+  }
+  let gnames: Vec<String> = tparams.iter().map(|(n, _)| n.clone()).collect();
+  for ti in &tr.items {
+    let m = match ti { syn::TraitItem::Fn(m) => m, _ => continue };
+    let name = m.sig.ident.to_string();
+    let (ls, le) = (m.span().start().line, m.span().end().line);
+    let body = match &m.default { Some(b) => b, None => return Err(format!("trait method {} has no default body", name)) };
+    // where Self: Sized, Inner: Sized
+    let mut sized: Vec<String> = vec![];
+    if let Some(w) = &m.sig.generics.where_clause {
+      for pr in &w.predicates {
+        if let syn::WherePredicate::Type(pt) = pr {
+          let is_sized = pt.bounds.iter().any(|b| matches!(b, syn::TypeParamBound::Trait(tb) if tb.path.is_ident("Sized")));
+          if let (true, syn::Type::Path(tp)) = (is_sized, &pt.bounded_ty) {
+            if let Some(id) = tp.path.get_ident() { sized.push(id.to_string()); }
+          }
+        }
+      }
+    }
+    let generics: Vec<crate::Generic> = tparams.iter().map(|(n, q)| crate::Generic {
+      name: n.clone(), is_cty: false, maybe_unsized: *q && !sized.contains(n) }).collect();
+    let r: R<(String, Vec<String>)> = (|| {
+      let mut params = vec![];
+      for inp in &m.sig.inputs {
+        match inp {
+          syn::FnArg::Typed(pt) => {
+            let n = match &*pt.pat { syn::Pat::Ident(pi) => pi.ident.to_string(), _ => return Err("non-identifier parameter".to_string()) };
+            params.push((n, ty_from_syn(&pt.ty, &gnames)?));
+          }
+          syn::FnArg::Receiver(_) => return Err("method receiver".to_string()),
+        }
+      }
+      let ret = match &m.sig.output { syn::ReturnType::Default => Ty::Unit, syn::ReturnType::Type(_, t) => ty_from_syn(t, &gnames)? };
+      let sig = FnSig { module: ms.name.to_string(), name: name.clone(), generics: generics.clone(), params, ret };
+      crate::expr::translate_fn_with(ms, &sig, body, sigs, None, &name)
+    })();
+    let cfg = crate::attr_cfgs_pub(&m.attrs);
+    match r {
+      Ok((code, callees)) => out.push(ItemOut { name, kind: "fn".into(), line_start: ls, line_end: le, cfg, status: "translated".into(), code, callees }),
+      Err(e) => return Err(format!("trait {} method {} (line {}): {}", trait_name, name, ls, e)),
+    }
+  }
+  if out.is_empty() { return Err(format!("trait {} has no default methods", trait_name)); }
+  Ok(out)
+}
+
+/// The trait-impl methods of src/allocation.rs that carry BoxBytes' arithmetic:
+/// `impl BoxBytesOf for T / [T]`, `impl FromBoxBytes for T / [T]`, `impl Drop for BoxBytes`.
+pub fn translate_alloc_impls(ms: &ModuleSpec, file: &syn::File,
+                             sigs: &HashMap<(String, String), FnSig>) -> Result<Vec<ItemOut>, String> {
+  let mut out = vec![];
+  let mut seen: Vec<String> = vec![];
+  for it in &file.items {
+    let im = match it { syn::Item::Impl(im) => im, _ => continue };
+    let tr = match &im.trait_ { Some((_, p, _)) => p.segments.last().map(|s| s.ident.to_string()).unwrap_or_default(), None => continue };
+    if !matches!(tr.as_str(), "BoxBytesOf" | "FromBoxBytes" | "Drop") { continue; }
+    let gnames: Vec<String> = im.generics.params.iter().filter_map(|g| match g { syn::GenericParam::Type(t) => Some(t.ident.to_string()), _ => None }).collect();
+    let self_ty = ty_from_syn(&im.self_ty, &gnames)?;
+    let suffix = match (&tr[..], &self_ty) {
+      ("Drop", Ty::BoxBytes) => "",
+      ("Drop", _) => continue,
+      (_, Ty::Param(_)) => "_sized",
+      (_, Ty::SliceOf(_)) => "_slice",
+      (_, Ty::Str) => {
+        out.push(ItemOut { name: "box_bytes_of_str".into(), kind: "fn".into(), line_start: im.span().start().line,
+          line_end: im.span().end().line, cfg: vec![], status: "skipped: delegates to the [u8] impl through std's into_boxed_bytes".into(),
+          code: String::new(), callees: vec![] });
+        continue;
+      }
+      (_, other) => return Err(format!("impl {} for {:?}", tr, other)),
+    };
+    for ii in &im.items {
+      let m = match ii { syn::ImplItem::Fn(m) => m, _ => continue };
+      let base = m.sig.ident.to_string();
+      let coq_name = if tr == "Drop" { "box_bytes_drop".to_string() } else { format!("{}{}", base, suffix) };
+      let (ls, le) = (m.span().start().line, m.span().end().line);
+      seen.push(coq_name.clone());
+      let r = translate_impl_method(ms, sigs, &gnames, &self_ty, m, &coq_name, tr == "Drop");
+      match r {
+        Ok((code, callees)) => out.push(ItemOut { name: coq_name, kind: "fn".into(), line_start: ls, line_end: le, cfg: vec![],
+          status: "translated".into(), code, callees }),
+        Err(e) => return Err(format!("impl {} method {} (line {}): {}", tr, coq_name, ls, e)),
+      }
+    }
+  }
+  out.append(&mut translate_trait_methods(ms, file, sigs, "TransparentWrapperAlloc")?);
+  for need in ["box_bytes_of_sized", "box_bytes_of_slice", "try_from_box_bytes_sized", "try_from_box_bytes_slice", "box_bytes_drop"] {
+    if !seen.iter().any(|s| s == need) {
+      return Err(format!("expected impl method {} not found in src/allocation.rs", need));
+    }
+  }
+  Ok(out)
+}
+
+fn translate_impl_method(ms: &ModuleSpec, sigs: &HashMap<(String, String), FnSig>, gnames: &[String], self_ty: &Ty,
+                         m: &syn::ImplItemFn, coq_name: &str, is_drop: bool) -> R<(String, Vec<String>)> {
+  let mut g: Vec<String> = gnames.to_vec();
+  g.push("Self".into());
+  let mut sm = HashMap::new();
+  sm.insert("Self".to_string(), self_ty.clone());
+  let mut params = vec![];
+  for inp in &m.sig.inputs {
+    match inp {
+      syn::FnArg::Receiver(r) => {
+        let t = if is_drop { Ty::BoxBytes } else { subst(&ty_from_syn(&r.ty, &g)?, &sm) };
+        params.push(("self".to_string(), t));
+      }
+      syn::FnArg::Typed(pt) => {
+        let n = match &*pt.pat { syn::Pat::Ident(pi) => pi.ident.to_string(), _ => return Err("non-identifier parameter".into()) };
+        params.push((n, subst(&ty_from_syn(&pt.ty, &g)?, &sm)));
+      }
+    }
+  }
+  let generics: Vec<crate::Generic> = gnames.iter().map(|n| crate::Generic { name: n.clone(), is_cty: false, maybe_unsized: false }).collect();
+  if is_drop {
+    // fn drop(&mut self) { if COND { unsafe { dealloc(P, L) }; } }  ==>  the dealloc call made, if any
+    let mut cx = Ctx { ms, sigs, generics: generics.clone(), vars: params.clone(), ret: Ty::Unit, fresh: 0, callees: vec![], self_ty: Some(self_ty.clone()) };
+    let stmts = &m.block.stmts;
+    if stmts.len() != 1 { return Err("drop: expected a single `if`".into()); }
+    let ife = match &stmts[0] { syn::Stmt::Expr(syn::Expr::If(i), _) => i, _ => return Err("drop: expected a single `if`".into()) };
+    if ife.else_branch.is_some() || ife.then_branch.stmts.len() != 1 { return Err("drop: unexpected shape of the `if`".into()); }
+    let mut inner = match &ife.then_branch.stmts[0] { syn::Stmt::Expr(e, _) => e, _ => return Err("drop: unexpected statement".into()) };
+    loop {
+      match inner {
+        syn::Expr::Unsafe(u) if u.block.stmts.len() == 1 => match &u.block.stmts[0] { syn::Stmt::Expr(e, _) => inner = e, _ => return Err("drop: unexpected unsafe block".into()) },
+        syn::Expr::Paren(p) => inner = &p.expr,
+        _ => break,
+      }
+    }
+    let call = match inner { syn::Expr::Call(c) => c, _ => return Err("drop: expected a dealloc call".into()) };
+    let fname = match &*call.func { syn::Expr::Path(p) => p.path.segments.last().map(|s| s.ident.to_string()).unwrap_or_default(), _ => String::new() };
+    if fname != "dealloc" || call.args.len() != 2 { return Err("drop: expected dealloc(ptr, layout)".into()); }
+    let c = cx.expr(&ife.cond, Some(&Ty::Bool))?;
+    let p = cx.expr(&call.args[0], None)?;
+    let l = cx.expr(&call.args[1], None)?;
+    if c.ty != Ty::Bool || !matches!(p.ty, Ty::Addr(_)) || l.ty != Ty::Layout || !c.pure || !p.pure || !l.pure {
+      return Err("drop: operands of an unexpected type".into());
+    }
+    let code = format!("Definition {} (ENV : env) (v_self : boxbytes) : outcome (option (N * layout)) :=\n  Ret (if {} then Some ({}, {}) else None).", coq_name, c.code, p.code, l.code);
+    return Ok((code, vec![]));
+  }
+  let ret = match &m.sig.output { syn::ReturnType::Default => Ty::Unit, syn::ReturnType::Type(_, t) => subst(&ty_from_syn(t, &g)?, &sm) };
+  let sig = FnSig { module: ms.name.to_string(), name: coq_name.to_string(), generics, params, ret };
+  crate::expr::translate_fn_with(ms, &sig, &m.block, sigs, Some(self_ty.clone()), coq_name)
 }
 
 pub fn emit_tables(_repo: &Path, _out: &Path) {}
